@@ -459,7 +459,10 @@ func (r *ChunkReader) tryRootNode(arity uint8, fromEnd bool) (found bool, ioErr 
 	if err := r.load(cOffset, arity); err != nil {
 		return false, err
 	}
-	if !r.currNode.valid() {
+	// The rNode methods take the arity from r.currNode[3]. It must match what
+	// was loaded (fromEnd, the arity argument is the CFile's last byte), or
+	// else they would also look at stale bytes beyond the node's size.
+	if (r.currNode[3] != arity) || !r.currNode.valid() {
 		return false, nil
 	}
 	if r.currNode.cPtrMax() != r.CompressedSize {
